@@ -16,6 +16,27 @@ gen/UnitsGen.vos gen/UnitsGen.vok gen/UnitsGen.required_vos: gen/UnitsGen.v Base
 UnitsGenOK.vo UnitsGenOK.glob UnitsGenOK.v.beautified UnitsGenOK.required_vo: UnitsGenOK.v Base.vo Units.vo UnitsThm.vo GenBase.vo gen/UnitsGen.vo
 UnitsGenOK.vio: UnitsGenOK.v Base.vio Units.vio UnitsThm.vio GenBase.vio gen/UnitsGen.vio
 UnitsGenOK.vos UnitsGenOK.vok UnitsGenOK.required_vos: UnitsGenOK.v Base.vos Units.vos UnitsThm.vos GenBase.vos gen/UnitsGen.vos
+Contents.vo Contents.glob Contents.v.beautified Contents.required_vo: Contents.v Base.vo Units.vo
+Contents.vio: Contents.v Base.vio Units.vio
+Contents.vos Contents.vok Contents.required_vos: Contents.v Base.vos Units.vos
+Container.vo Container.glob Container.v.beautified Container.required_vo: Container.v Base.vo Units.vo Contents.vo
+Container.vio: Container.v Base.vio Units.vio Contents.vio
+Container.vos Container.vok Container.required_vos: Container.v Base.vos Units.vos Contents.vos
+ContainerThm.vo ContainerThm.glob ContainerThm.v.beautified ContainerThm.required_vo: ContainerThm.v Base.vo Units.vo UnitsThm.vo Contents.vo Container.vo
+ContainerThm.vio: ContainerThm.v Base.vio Units.vio UnitsThm.vio Contents.vio Container.vio
+ContainerThm.vos ContainerThm.vok ContainerThm.required_vos: ContainerThm.v Base.vos Units.vos UnitsThm.vos Contents.vos Container.vos
+Dilute.vo Dilute.glob Dilute.v.beautified Dilute.required_vo: Dilute.v Base.vo Units.vo Contents.vo Container.vo
+Dilute.vio: Dilute.v Base.vio Units.vio Contents.vio Container.vio
+Dilute.vos Dilute.vok Dilute.required_vos: Dilute.v Base.vos Units.vos Contents.vos Container.vos
+Solve.vo Solve.glob Solve.v.beautified Solve.required_vo: Solve.v Base.vo Units.vo Contents.vo Container.vo Dilute.vo
+Solve.vio: Solve.v Base.vio Units.vio Contents.vio Container.vio Dilute.vio
+Solve.vos Solve.vok Solve.required_vos: Solve.v Base.vos Units.vos Contents.vos Container.vos Dilute.vos
+Plate.vo Plate.glob Plate.v.beautified Plate.required_vo: Plate.v Base.vo Units.vo Contents.vo Container.vo
+Plate.vio: Plate.v Base.vio Units.vio Contents.vio Container.vio
+Plate.vos Plate.vok Plate.required_vos: Plate.v Base.vos Units.vos Contents.vos Container.vos
+Prog.vo Prog.glob Prog.v.beautified Prog.required_vo: Prog.v Base.vo Units.vo Contents.vo Container.vo Plate.vo Dilute.vo Solve.vo
+Prog.vio: Prog.v Base.vio Units.vio Contents.vio Container.vio Plate.vio Dilute.vio Solve.vio
+Prog.vos Prog.vok Prog.required_vos: Prog.v Base.vos Units.vos Contents.vos Container.vos Plate.vos Dilute.vos Solve.vos
 Props/C06.vo Props/C06.glob Props/C06.v.beautified Props/C06.required_vo: Props/C06.v Base.vo Units.vo UnitsThm.vo GenBase.vo gen/UnitsGen.vo UnitsGenOK.vo
 Props/C06.vio: Props/C06.v Base.vio Units.vio UnitsThm.vio GenBase.vio gen/UnitsGen.vio UnitsGenOK.vio
 Props/C06.vos Props/C06.vok Props/C06.required_vos: Props/C06.v Base.vos Units.vos UnitsThm.vos GenBase.vos gen/UnitsGen.vos UnitsGenOK.vos
